@@ -35,7 +35,7 @@ func fdsInto(dir string) int {
 	return n
 }
 
-// Case: "<kind> <layout 0|1> <policy> <nEvents> <nRaw> <stopTwice 0|1> [<spreadMs: the events are spread over this time, crossing rotation boundaries> [<bufferSize>]]"
+// Case: "<kind> <layout 0|1> <policy> <nEvents> <nRaw> <1: a second (rejected) Refresh precedes the log calls> [<spreadMs: the events are spread over this time, crossing rotation boundaries> [<bufferSize>]]"
 //
 //	kind: syncfile asyncfile console file rolling rollingsep rollingasync rollingsepasync syncrollingapp
 //
@@ -126,6 +126,13 @@ func runC05Kinds(cases []string, out *bufio.Writer, _ []string) {
 		if err := log.Refresh(cfg); err != nil {
 			fmt.Fprintf(out, "refresh-error %v\n", strings.ReplaceAll(err.Error(), "\n", " "))
 			continue
+		}
+		if len(f) > 5 && f[5] == "1" { // a second Refresh while the configuration is live: rejected, and it must leave the live one exactly as it is
+			if err := log.Refresh(cfg); err == nil {
+				fmt.Fprintln(out, "second-refresh-accepted - 0 0")
+				guard(func() { log.Destroy() })
+				continue
+			}
 		}
 		logged := make(chan string, 1)
 		go func() {
